@@ -5,7 +5,7 @@ import common, gillcheck
 
 def run(ctx):
     drv = common.LeanDriver()
-    gillcheck.correspondence(ctx, drv, False, ctx.scale(400, 4000), "Gillespie_SIR")
+    gillcheck.correspondence(ctx, drv, False, ctx.scale(1500, 6000), "Gillespie_SIR")
     cases = gillcheck.law_cases(ctx, False, ctx.scale(3, 4), ctx.scale(30, 300))
     if not ctx.thorough:
         cases = ctx.rng.sample(cases, min(len(cases), 150))
